@@ -6,4 +6,5 @@ chmod +x check
 /venv/bin/python -c "import numpy, sys; sys.path.insert(0, '.'); from vmc.lib import fl; print('fuzzylite', fl.__file__)"
 command -v python3-vt >/dev/null && python3-vt -c "import jsonschema" && echo "jsonschema ok (tooling venv)"
 mkdir -p evidence replays
+./check --selftest
 echo setup ok
